@@ -373,10 +373,22 @@ example : parseProgram .module (matchCommaToks.filter (· != .e (.op .comma)))
 
 /-! ## (e) print, then parse -/
 
-/-- **Round trip through the printer, on the fragment**: for a module / interactive body made of Pass, Break,
-    Continue, expression statements, Return, If and While (non-empty bodies, optional `else`, nested arbitrarily)
-    over C11's expression fragment — or an expression of that fragment in Expression mode — the rendering in
-    canonical layout is accepted (by every sufficiently large fuel) and parses back to the same tree. -/
+/-- **Round trip through the printer, on the fragment `InFragmentP`** (`inFragM`, lean/PV/Prog/Render.lean): for a
+    module / interactive body made of ANY of the 28 statement kinds — simple statements (expression statements,
+    assignments with several targets, augmented and annotated assignments, `del`, `assert`, `raise`, `global`,
+    `nonlocal`, `import`, `from … import`, `type` aliases, `pass` / `break` / `continue` / `return`), `if` / `while` /
+    `for` / `async for` with `else`, `try` and `try*` with handlers, `else` and `finally`, `with` / `async with`,
+    function and class definitions with decorators, type parameters, every parameter kind with annotations and
+    defaults, `match` with every pattern kind and guards — nested arbitrarily, over C11's extended expression
+    fragment `InFragmentX` (`fx`: starred elements, keyword arguments, slices, lambda, comprehensions, named
+    expressions, `yield`), or an expression (list element) of that fragment in Expression mode: the rendering in
+    canonical layout is accepted (by every sufficiently large fuel) and parses back to the same tree.
+
+    The side conditions of `inFragM` beyond "expressions in `fx`" are conditions every parser-built tree satisfies
+    (non-empty bodies / target lists / name lists / case lists; `validate_pos_params`, `validate_arguments`, no repeated
+    keyword; a handler name needs a type and the handlers of `try*` have types; `simple` only for a `Name` target; `_` is
+    never a capture name; the shapes of `MatchValue` / `MatchSingleton` / mapping-key expressions; equal lengths of
+    the parallel lists of `MatchMapping` / `MatchClass`; an `ImportFrom` has a level and a module or a dot). -/
 theorem render_parse_partial (m : Mod) (h : inFragM m = true) : Accepts (modeOf m) (render m) m := by
   cases m with
   | module ss =>
@@ -392,16 +404,35 @@ theorem render_parse_partial (m : Mod) (h : inFragM m = true) : Accepts (modeOf 
     simp only [] at h1
     simp only [modeOf, render, parseProgramFuel, map_toTok_ofTok, parseTopT, h1]
   | expression e =>
-    obtain ⟨n, hn⟩ := evT_commaList e h []
+    obtain ⟨n, hn⟩ := evT_commaList1 (elemOK_of_fx h) endTok_newline ne_comma_newline []
     refine ⟨n, ?_⟩
     have h1 := hn n (Nat.le_refl n)
     simp only [] at h1
-    simp only [modeOf, render, parseProgramFuel, map_toTok_ofTok, parseTopT, parseTestListS, h1]
+    simp only [modeOf, render, parseProgramFuel, map_toTok_ofTok, parseTopT, parseTestListS, renderExpr_eq, h1]
     simp [genericList, tk_tNewline]
 
-/-- the full statement, NOT proved: every tree the parser can produce is read back from its rendering.  (It needs
-    `render` for the remaining 20 statement forms and the patterns; it is false for the present `render`, which prints
-    nothing for them.) -/
+/-- the same, with the fragment as a (decidable) proposition and the conclusion for every sufficiently large fuel:
+    **every program of the fragment has a text (token sequence) that parses back to it** -/
+theorem render_parse_partial_ev (m : Mod) (h : InFragmentP m) :
+    ∃ n, ∀ f, n ≤ f → parseProgramFuel f (modeOf m) (render m) = some m :=
+  (accepts_iff_eventually _ _ _).mp (render_parse_partial m h)
+
+/-- the fragment contains the old one: statements over the operator core `InFragment` of C11 -/
+theorem inFragment_core_sub (e : Expr) (h : InFragment e) : inFragM (.expression e) = true := by
+  have h1 : fx .plain e = true := inFrag_fx e h
+  cases e with
+  | yield v => cases v <;> simp_all [inFragM, fx]
+  | _ => simp_all [inFragM, fx, XPos.notTarget, XPos.tupleElem]
+
+/-- the full statement, NOT proved: every tree the parser can produce is read back from its rendering.
+    What is outside `InFragmentP` although the parser can produce it:
+    * every tree that contains an f-string (`JoinedStr` / `FormattedValue`) anywhere — outside C11's `InFragmentX`
+      (their round trip is not a token-level statement, see design/C11.md), in particular f-strings as `MatchValue`
+      patterns / mapping keys;
+    * implicitly concatenated literals need nothing special (the tree holds the concatenated constant).
+    Everything else the grammar can build is inside; trees the grammar can NOT build are outside by the side
+    conditions listed at `render_parse_partial` (for them the statement is vacuous or false: e.g. an empty body has
+    no text at all). -/
 def render_parse_full : Prop :=
   ∀ (m : Mod), (∃ ts, Accepts (modeOf m) ts m) → Accepts (modeOf m) (render m) m
 
@@ -411,5 +442,86 @@ def sampleProgram : Mod :=
 
 example : inFragM sampleProgram = true := by decide
 example : parseProgram .module (render sampleProgram) = some sampleProgram := by rfl
+
+/-- simple statements, nested in a `for … else`:
+    `for (i, *r) in xs:⏎ a = (b, c) = (yield)⏎ x.y += f(*z, k=1)⏎ (t): int = 1⏎ u: int⏎ del p[0], q.r⏎ assert a, m⏎
+     raise E from None⏎ global g, h⏎ import a.b as c, d⏎ from ...m.n import (p as q), r⏎ from . import *⏎ type T[A: int, *B, **C] = A⏎ *s⏎else:⏎ nonlocal v⏎ raise⏎` -/
+def sampleSimple : Mod :=
+  .module [.for (.tuple [.name [105], .starred (.name [114])]) (.name [120, 115])
+    [.assign [.name [97], .tuple [.name [98], .name [99]]] (.yield none),
+     .augAssign (.attribute (.name [120]) [121]) .add
+       (.call (.name [102]) [.starred (.name [122])] [.mk (some [107]) (.const (.int 1))]),
+     .annAssign (.name [116]) (.name [105, 110, 116]) (some (.const (.int 1))) false,
+     .annAssign (.name [117]) (.name [105, 110, 116]) none true,
+     .delete [.subscript (.name [112]) (.const (.int 0)), .attribute (.name [113]) [114]],
+     .assert (.name [97]) (some (.name [109])),
+     .raise (some (.name [69])) (some (.const .none)),
+     .global [[103], [104]],
+     .import [⟨[97, 46, 98], some [99]⟩, ⟨[100], none⟩],
+     .importFrom (some [109, 46, 110]) [⟨[112], some [113]⟩, ⟨[114], none⟩] (some 3),
+     .importFrom none [⟨[42], none⟩] (some 1),
+     .typeAlias (.name [84]) [.typeVar [65] (some (.name [105, 110, 116])), .typeVarTuple [66], .paramSpec [67]] (.name [65]),
+     .expr (.starred (.name [115]))]
+    [.nonlocal [[118]], .raise none none]]
+
+example : inFragM sampleSimple = true := by decide
+set_option maxRecDepth 20000 in
+example : parseProgram .module (render sampleSimple) = some sampleSimple := by rfl
+
+/-- compound statements:
+    `@d⏎async def f[T](a, b=1, /, c: int = 2, *args: *Ts, d, e=3, **kw: T) -> R:⏎ try:⏎  with (open(p) as q, r):⏎   pass⏎
+     except E as e:⏎  pass⏎ except:⏎  pass⏎ else:⏎  async with (s):⏎   continue⏎ finally:⏎  try:⏎   async for x in y:⏎    break⏎  except* (A, B):⏎   pass⏎
+    @e⏎class C[U](B, metaclass=M):⏎ def g(): ⏎  try:⏎   pass⏎  finally:⏎   return⏎` -/
+def sampleCompound : Mod :=
+  .module
+    [.asyncFunctionDef [102]
+      { posonly := [⟨⟨[97], none⟩, none⟩, ⟨⟨[98], none⟩, some (.const (.int 1))⟩],
+        args := [⟨⟨[99], some (.name [105, 110, 116])⟩, some (.const (.int 2))⟩],
+        vararg := some ⟨[97, 114, 103, 115], some (.starred (.name [84, 115]))⟩,
+        kwonly := [⟨⟨[100], none⟩, none⟩, ⟨⟨[101], none⟩, some (.const (.int 3))⟩],
+        kwarg := some ⟨[107, 119], some (.name [84])⟩ }
+      [.try
+        [.with [⟨.call (.name [111, 112, 101, 110]) [.name [112]] [], some (.name [113])⟩, ⟨.name [114], none⟩] [.pass]]
+        [.mk (some (.name [69])) (some [101]) [.pass], .mk none none [.pass]]
+        [.asyncWith [⟨.name [115], none⟩] [.continue]]
+        [.tryStar [.asyncFor (.name [120]) (.name [121]) [.break] []]
+           [.mk (some (.tuple [.name [65], .name [66]])) none [.pass]] [] []]]
+      [.name [100]] (some (.name [82])) [.typeVar [84] none],
+     .classDef [67] [.name [66]] [.mk (some [109, 101, 116, 97, 99, 108, 97, 115, 115]) (.name [77])]
+      [.functionDef [103] {} [.try [.pass] [] [] [.return none]] [] none []]
+      [.name [101]] [.typeVar [85] none]]
+
+example : inFragM sampleCompound = true := by decide
+set_option maxRecDepth 20000 in
+example : parseProgram .module (render sampleCompound) = some sampleCompound := by rfl
+
+/-- `match (x, y):⏎ case m.P(a, [*r, -1+2j], y=n.K | None as z) if g:⏎  pass⏎ case {"k": _, True: *_, **kw}:⏎  match z:⏎   case (1 | 2) as w:⏎    pass⏎` -/
+def sampleMatch : Mod :=
+  .interactive
+    [.match (.tuple [.name [120], .name [121]])
+      [.mk (.matchClass (.attribute (.name [109]) [80])
+              [.matchAs none (some [97]),
+               .matchSequence [.matchStar (some [114]),
+                 .matchValue (.binOp (.unaryOp .uSub (.const (.int 1))) .add (.const (.imag 0x4000000000000000)))]]
+              [[121]]
+              [.matchAs (some (.matchOr [.matchValue (.attribute (.name [110]) [75]), .matchSingleton .none])) (some [122])])
+           (some (.name [103])) [.pass],
+       .mk (.matchMapping [.const (.str [107] false), .const (.bool true)] [.matchAs none none, .matchStar none] (some [107, 119]))
+           none
+           [.match (.name [122])
+             [.mk (.matchAs (some (.matchOr [.matchValue (.const (.int 1)), .matchValue (.const (.int 2))])) (some [119]))
+                none [.pass]]]]]
+
+example : inFragM sampleMatch = true := by decide
+example : parseProgram .interactive (render sampleMatch) = some sampleMatch := by rfl
+
+/-- Expression mode: `*f(x for x in y)[a:b, ::c]` (a starred element of the extended fragment) -/
+def sampleExpression : Mod :=
+  .expression (.starred (.subscript (.call (.name [102]) [.genExp (.name [120]) [.mk (.name [120]) (.name [121]) [] false]] [])
+    (.tuple [.slice (some (.name [97])) (some (.name [98])) none, .slice none none (some (.name [99]))])))
+
+example : inFragM sampleExpression = true := by decide
+example : parseProgram .expression (render sampleExpression) = some sampleExpression := by rfl
+example : InFragmentP sampleCompound := by decide
 
 end PV.Prog
